@@ -49,6 +49,9 @@ def _set_frame(kind, it, k, vals):
         it.data[k] = vals if vals is not None else nan
     elif kind == "force3D":
         v = vals if vals is not None else [nan] * 9
+        if np.asarray(it.application_point).dtype == np.float16:
+            # a half-precision array (see "rebind-data") would round what is written into it: the caller widens it first
+            it.application_point = np.asarray(it.application_point).astype(np.float32)
         it.application_point[k] = v[0:3]
         it.force[k] = v[3:6]
         it.torque[k] = v[6:9]
@@ -185,6 +188,18 @@ def inplace_edit(rng, b, spec):
             if kind in ("data3D", "emg"):
                 # a raw array, not one that went through a track constructor
                 its[i].data = lib._frames_array(newf, w, lib._fdt(var2))
+            elif kind == "force3D" and not var2:
+                # the application point comes in a narrower type than force and torque (half precision, e.g. from a
+                # compressed source): its values are made exactly representable there, the other six stay float32
+                apw = 3
+                for f in newf:
+                    if f is not None:
+                        for q in range(apw):
+                            h = float(np.float16(f[q])) if abs(f[q]) < 6.0e4 else 0.0
+                            f[q] = h
+                it2 = lib.build_item(kind, dict(s2[key][i], frames=newf), {})
+                its[i].application_point = np.asarray(it2.application_point).astype(np.float16)
+                its[i].force, its[i].torque = it2.force, it2.torque
             else:
                 its[i].application_point, its[i].force, its[i].torque = it2.application_point, it2.force, it2.torque
             s2[key][i]["frames"] = newf
